@@ -165,7 +165,13 @@ func (v Value) IsNaN() bool {
 		return false
 	}
 
-	return math.IsNaN(v.float64())
+	// The conversion of an object runs script code (valueOf, toString), which
+	// may throw; IsNaN has no error to return, such a value is not NaN.
+	nan := false
+	_ = catchPanic(func() { //nolint:errcheck
+		nan = math.IsNaN(v.float64())
+	})
+	return nan
 }
 
 // IsString will return true if value is a string (primitive).
